@@ -70,6 +70,10 @@ struct Table {
     blocks: Vec<Block>,
     events: Vec<Event>,
     next_seq: u32,
+    /// blocks that outlived their case (leaked by the code under test, or long-lived harness memory allocated
+    /// under tracking): looked up by address when they are freed later, never scanned (a long run that tolerates
+    /// leaks would otherwise slow down quadratically)
+    stale: std::collections::BTreeMap<usize, Block>,
 }
 
 struct Spin<T> {
@@ -82,20 +86,39 @@ impl<T> Spin<T> {
         Spin { lock: AtomicBool::new(false), v: std::cell::UnsafeCell::new(v) }
     }
     fn with<R>(&self, f: impl FnOnce(&mut T) -> R) -> R {
+        let mut spins: u64 = 0;
         while self
             .lock
             .compare_exchange_weak(false, true, Ordering::Acquire, Ordering::Relaxed)
             .is_err()
         {
             std::hint::spin_loop();
+            spins += 1;
+            if spins == 1 << 33 {
+                // minutes of spinning: the lock was left held (re-entrancy or an unwind through the critical section).
+                // A hang would be reported as a watchdog timeout much later; say what it is and end the process.
+                let _ = std::io::Write::write_all(&mut std::io::stderr(), b"rt::alloc: the allocator table lock is held forever (harness fault)\n");
+                std::process::abort();
+            }
         }
+        // released on unwind too
+        struct Unlock<'a>(&'a AtomicBool, bool);
+        impl Drop for Unlock<'_> {
+            fn drop(&mut self) {
+                self.0.store(false, Ordering::Release);
+                if !self.1 && std::env::var_os("TV_DEBUG_LOCK").is_some() {
+                    eprintln!("rt::alloc: unwinding through the table lock:\n{}", std::backtrace::Backtrace::force_capture());
+                }
+            }
+        }
+        let mut u = Unlock(&self.lock, false);
         let r = f(unsafe { &mut *self.v.get() });
-        self.lock.store(false, Ordering::Release);
+        u.1 = true;
         r
     }
 }
 
-static TABLE: Spin<Table> = Spin::new(Table { blocks: Vec::new(), events: Vec::new(), next_seq: 0 });
+static TABLE: Spin<Table> = Spin::new(Table { blocks: Vec::new(), events: Vec::new(), next_seq: 0, stale: std::collections::BTreeMap::new() });
 static LIVE_BYTES: AtomicUsize = AtomicUsize::new(0);
 
 struct BypassGuard;
@@ -256,6 +279,9 @@ unsafe impl GlobalAlloc for Tracker {
                     return Found::Exact(copy, was_live);
                 }
             }
+            if let Some(b) = t.stale.remove(&p) {
+                return Found::Exact(b, true);
+            }
             for b in t.blocks.iter() {
                 if p > b.ptr && p < b.ptr + b.size {
                     return Found::Interior(*b);
@@ -311,9 +337,6 @@ unsafe impl GlobalAlloc for Tracker {
                     crate::sim::on_free(&b);
                 }
                 check_redzones(&b);
-                if b.stale {
-                    TABLE.with(|t| t.blocks.retain(|x| !(x.stale && x.ptr == b.ptr)));
-                }
                 if cfg!(feature = "asan") || b.stale {
                     System.dealloc(
                         b.base as *mut u8,
@@ -447,20 +470,16 @@ pub fn case_end() -> Vec<Block> {
         TABLE.with(|t| {
             t.events.clear();
             t.next_seq = 0;
-            let mut keep = Vec::new();
             for mut b in std::mem::take(&mut t.blocks) {
                 if b.live {
-                    if !b.stale {
-                        check_redzones(&b);
-                        leaked.push(b);
-                        b.stale = true;
-                    }
-                    keep.push(b);
+                    check_redzones(&b);
+                    leaked.push(b);
+                    b.stale = true;
+                    t.stale.insert(b.ptr, b);
                 } else {
                     dead.push(b);
                 }
             }
-            t.blocks = keep;
         });
         if !cfg!(feature = "asan") {
             for b in &dead {
